@@ -114,22 +114,30 @@ func (r *run) mbCaptureRequest(as *askState) {
 	}
 }
 
-func (r *run) feed(nd *Node, p pkt) {
-	ctx, cf := context.WithTimeout(r.bg, 300*time.Millisecond)
+func (r *run) feed(nd *Node, p pkt) error {
+	// healthy: microseconds. A destination whose receive workers are all busy does not take the datagram:
+	// it is lost (and may be delivered again later)
+	ctx, cf := context.WithTimeout(r.bg, 60*time.Millisecond)
 	defer cf()
-	nd.sim.Feed(ctx, p.Packet)
+	return nd.sim.Feed(ctx, p.Packet)
 }
 
-// mbFeedRequest delivers the request fragments of as to its destination, in a seeded order
-func (r *run) mbFeedRequest(as *askState) {
+// mbFeedRequest delivers the request fragments of as to its destination, in a seeded order;
+// true if the destination took them all
+func (r *run) mbFeedRequest(as *askState) bool {
 	r.mbPump(nil)
 	as.mu.Lock()
 	frags := append([]pkt{}, as.reqFrags...)
 	as.mu.Unlock()
 	r.rng.Shuffle(len(frags), func(i, j int) { frags[i], frags[j] = frags[j], frags[i] })
+	ok := len(frags) > 0
 	for _, p := range frags {
-		r.feed(as.server, p)
+		if r.feed(as.server, p) != nil {
+			ok = false
+			break
+		}
 	}
+	return ok
 }
 
 func (r *run) mbCaptureReply(as *askState) {
@@ -198,8 +206,9 @@ func (r *run) mbSettle(all []*askState) {
 			select {
 			case <-as.entered:
 			default:
-				if !fedReq[as.k] && len(req) > 0 {
+				if !fedReq[as.k] && !as.arrived && len(req) > 0 {
 					fedReq[as.k] = true
+					as.arrived = true
 					progress = true
 					for _, p := range req {
 						r.feed(as.server, p)
